@@ -3,7 +3,7 @@
    blob/packer.rs (BasicPacker/RawPacker) and commands/repair/index.rs; the constants come
    from Extracted.v, regenerated from the source on every run. *)
 From Verif.Base Require Import Tactics.
-From Verif.C08 Require Import Extracted Model Spec ProofsCodec ProofsPacker ProofsFromFile ProofsRebuild.
+From Verif.C08 Require Import Extracted Model Spec ProofsCodec ProofsPacker ProofsFromFile ProofsRebuild Repack ProofsRepack.
 Local Open Scope N_scope.
 
 (* Parsing the binary header of any list of index blobs gives the same blobs back, with the
@@ -93,6 +93,30 @@ Theorem rebuild_index_equals_index : forall (enc : bytes -> bytes) (dec : bytes 
             Permutation (entries_of r) (entries_of (truth_of packs)).
 Proof. exact (fun enc dec ra packs index H1 H2 H3 => rebuild_index_entries_lemma enc dec H1 H2 packs H3 ra index). Qed.
 Print Assumptions rebuild_index_equals_index.
+
+(* The repacker (prune repack, copy): for EVERY list of (source pack, location, blob id) - in the
+   order sort_unstable() gives or any other -, every pack store and every blob decoder
+   (identity for copy_fast; decrypt + decompress for copy), if coalescing the reads
+   (CopyPackBlobs::coalesce / BlobLocations::coalesce under itertools' coalesce) and slicing each
+   read back into blobs ends without panic or error, the blobs handed to the target packer are, in
+   order, exactly (id, decode (bytes of the pack at [offset, offset+length)), uncompressed length)
+   of each entry, and each such range lies inside its pack. *)
+Theorem repack_preserves_blobs : forall (store : id -> option bytes) (decode : bytes -> option N -> option bytes)
+    (es : list centry) (out : list handed),
+  repack true store decode es = Ok out ->
+  Forall2 (fun e h => expected_of store decode e = Some h) es out.
+Proof. exact repack_preserves_blobs_lemma. Qed.
+Print Assumptions repack_preserves_blobs.
+
+(* The `self.pack_id == other.pack_id` conjunct of CopyPackBlobs::coalesce is necessary: without it
+   (repack false) a sorted two-blob list from two packs hands a blob the bytes of the wrong pack. *)
+Theorem repack_across_packs_refuted :
+  exists (store : id -> option bytes) (es : list centry) out,
+    sorted_ce es = true /\
+    repack false store (fun d _ => Some d) es = Ok out /\
+    ~ Forall2 (fun e h => expected_of store (fun d _ => Some d) e = Some h) es out.
+Proof. exact repack_across_packs_refuted_lemma. Qed.
+Print Assumptions repack_across_packs_refuted.
 
 (* PackHeader::from_file on a 3-byte file without size hint (what repair-index does for a
    truncated, unindexed pack): `pack_size - read_size` underflows; and a length field >= 2^32-4
